@@ -155,10 +155,11 @@ Print Assumptions C07_reload_equiv_without_roots_refuted.
    n -- for the repaired gcIndex.  [isman] marks the five manifest media types; only
    they have successors. *)
 Theorem C07_store_history_exact :
-  forall (content : node -> list node) (isman : node -> bool),
+  forall (content : node -> list node) (isman : node -> bool) (rank : node -> nat),
     (forall p, content p <> [] -> isman p = true) ->
+    (forall p c, In c (content p) -> (rank c < rank p)%nat) ->
     forall fuel ops n,
-      let s := fst (orun true true content isman fuel empty_store ops) in
+      let s := fst (orun true true true content isman fuel empty_store ops) in
       NoDup (predecessors (o_graph s) n) /\
       forall p, In p (predecessors (o_graph s) n) <-> In p (o_blobs s) /\ In n (content p).
 Proof. exact store_history_exact. Qed.
@@ -169,66 +170,96 @@ Print Assumptions C07_store_history_exact.
    statement stops compiling when index.json is written before the digest references of
    the reachable manifests are restored *)
 Theorem C07_store_history_exact_src :
-  forall (content : node -> list node) (isman : node -> bool),
+  forall (content : node -> list node) (isman : node -> bool) (rank : node -> nat),
     (forall p, content p <> [] -> isman p = true) ->
+    (forall p c, In c (content p) -> (rank c < rank p)%nat) ->
     forall fuel ops n,
-      let s := fst (orun true gc_save_after_restore content isman fuel empty_store ops) in
+      let s := fst (orun true gc_save_after_restore delete_reroots content isman fuel empty_store ops) in
       NoDup (predecessors (o_graph s) n) /\
       forall p, In p (predecessors (o_graph s) n) <-> In p (o_blobs s) /\ In n (content p).
 Proof. exact store_history_exact_src. Qed.
 Print Assumptions C07_store_history_exact_src.
 
-(* Store.GC saving index.json BEFORE restoring those references ([orun true false]): push 0,
+(* Store.GC saving index.json BEFORE restoring those references ([orun true false false], i.e. without the re-rooting of dangling manifests in delete, which masks it): push 0,
    2 = manifest{0}, 3 = index{2}; tag 3; GC; reopen; delete 3; reopen: 2 is stored, references
    0, and Predecessors(0) omits it.  Without the reopen between GC and Delete the defect is
    masked ([C07_store_gc_save_early_masked]). *)
 Theorem C07_store_gc_save_early_refuted :
   exists content isman fuel ops n p,
     (forall q, content q <> [] -> isman q = true) /\
-    let r := orun true false content isman fuel empty_store ops in
+    let r := orun true false false content isman fuel empty_store ops in
     snd r = true /\ In p (o_blobs (fst r)) /\ In n (content p) /\
     ~ In p (predecessors (o_graph (fst r)) n).
 Proof. exact store_gc_save_early_refuted. Qed.
 Print Assumptions C07_store_gc_save_early_refuted.
 
 Example C07_store_gc_save_early_masked :
-  let r := orun true false (ctab pf_ct) pf_isman 50 empty_store pf_ops in
+  let r := orun true false false (ctab pf_ct) pf_isman 50 empty_store pf_ops in
   snd r = true /\ predecessors (o_graph (fst r)) 0%N = [2%N].
 Proof. exact store_gc_save_early_masked. Qed.
 
 Example C07_store_history_fixed_example2 :
-  let r := orun true true (ctab pf_ct) pf_isman 50 empty_store pf_ops2 in
+  let r := orun true true true (ctab pf_ct) pf_isman 50 empty_store pf_ops2 in
   snd r = true /\ o_blobs (fst r) = [2; 0]%N /\ predecessors (o_graph (fst r)) 0%N = [2%N].
 Proof. exact store_history_fixed_example2. Qed.
+
+(* [ops] may contain PForeign: the layout's index.json replaced from outside by one that lists
+   only the tagged and top-level manifests (what other tools write), then reopened.  The
+   theorem above covers those histories because Store.delete gives a by-digest entry to every
+   manifest that loses its last predecessor ([reroot = true], re-read from the source as
+   [delete_reroots]).  Without it ([orun true true false]): push 0, 2 = manifest{0},
+   3 = index{2}; tag 3; foreign index listing 3 only + reopen; delete 3; reopen: 2 is stored,
+   references 0, Predecessors(0) omits it (audit finding F2; fixed by repo commit
+   "fix: oci Delete keeps a dangling manifest listed in the index"). *)
+Theorem C07_store_foreign_noreroot_refuted :
+  exists content isman fuel ops n p,
+    (forall q, content q <> [] -> isman q = true) /\
+    let r := orun true true false content isman fuel empty_store ops in
+    snd r = true /\ In p (o_blobs (fst r)) /\ In n (content p) /\
+    ~ In p (predecessors (o_graph (fst r)) n).
+Proof. exact store_foreign_noreroot_refuted. Qed.
+Print Assumptions C07_store_foreign_noreroot_refuted.
+
+Example C07_store_foreign_fixed_example :
+  let r := orun true true true (ctab pf_ct) pf_isman 50 empty_store pf_ops3 in
+  snd r = true /\ o_blobs (fst r) = [2; 0]%N /\ predecessors (o_graph (fst r)) 0%N = [2%N].
+Proof. exact store_foreign_fixed_example. Qed.
+
+(* the hypotheses of the store theorems hold for the example universe *)
+Example C07_store_hyps_example :
+  (forall q, ctab pf_ct q <> [] -> pf_isman q = true) /\
+  (forall p c, In c (ctab pf_ct p) -> (N.to_nat c < N.to_nat p)%nat).
+Proof. exact (conj pf_content_isman pf_rank_dec). Qed.
 
 (* closing the layout and opening it again (directory, fs.FS, tar: the same loadIndex)
    changes neither the stored set nor any Predecessors answer *)
 Theorem C07_store_reopen_same :
-  forall (content : node -> list node) (isman : node -> bool),
+  forall (content : node -> list node) (isman : node -> bool) (rank : node -> nat),
     (forall p, content p <> [] -> isman p = true) ->
+    (forall p c, In c (content p) -> (rank c < rank p)%nat) ->
     forall fuel ops s',
-      let s := fst (orun true true content isman fuel empty_store ops) in
-      ostep true true content isman fuel s PReopen = (s', true) ->
+      let s := fst (orun true true true content isman fuel empty_store ops) in
+      ostep true true true content isman fuel s PReopen = (s', true) ->
       o_blobs s' = o_blobs s /\
       forall n, Permutation (predecessors (o_graph s') n) (predecessors (o_graph s) n).
 Proof. exact store_reopen_same. Qed.
 Print Assumptions C07_store_reopen_same.
 
 (* The same statement is false for gcIndex as it was before the repair
-   ([orun false]): push 0, 2 = manifest{0}, 3 = index{2}; tag 3; GC; delete 3; reopen:
+   ([orun false true false], likewise without the re-rooting in delete): push 0, 2 = manifest{0}, 3 = index{2}; tag 3; GC; delete 3; reopen:
    2 is stored and references 0, Predecessors(0) omits it.  Replayed on the real store:
    corpus/C07/gc-drops-nested-manifest.json. *)
 Theorem C07_store_history_exact_prefix_refuted :
   exists content isman fuel ops n p,
     (forall q, content q <> [] -> isman q = true) /\
-    let r := orun false true content isman fuel empty_store ops in
+    let r := orun false true false content isman fuel empty_store ops in
     snd r = true /\ In p (o_blobs (fst r)) /\ In n (content p) /\
     ~ In p (predecessors (o_graph (fst r)) n).
 Proof. exact store_history_exact_prefix_refuted. Qed.
 Print Assumptions C07_store_history_exact_prefix_refuted.
 
 Example C07_store_history_fixed_example :
-  let r := orun true true (ctab pf_ct) pf_isman 50 empty_store pf_ops in
+  let r := orun true true true (ctab pf_ct) pf_isman 50 empty_store pf_ops in
   snd r = true /\ o_blobs (fst r) = [2; 0]%N /\ predecessors (o_graph (fst r)) 0%N = [2%N].
 Proof. exact store_history_fixed_example. Qed.
 
